@@ -181,6 +181,11 @@ func main() {
 	base := *seedFlag
 	fmt.Printf("C16 %s tier, VERIF_SEED=%d, %d parallel simulation processes\n", *tier, base, parallel)
 
+	if old, _ := filepath.Glob(filepath.Join(*verif, "replays", fmt.Sprintf("C16-%d-*.json", base))); len(old) > 0 {
+		for _, f := range old {
+			os.Remove(f)
+		}
+	}
 	a := newAgg()
 	var detCfgs []c16sim.WorkerConfig
 	bases := []uint64{base}
